@@ -301,6 +301,8 @@ def check_from_interval(ctx, case):
     if failed(nc):
         return
     got = [[n.name, n.octave, T.pitch(n.name, n.octave)] for n in nc.notes]
+    alias = ctx.ok("from_interval", NoteContainer().from_interval, name, sh, up)
+    ctx.check(failed(alias) or [[n.name, n.octave] for n in alias.notes] == [g[:2] for g in got], "constructor/from_interval-alias", repr(case))
     start = T.pitch(name, 4)
     other = start + size if up else start - size
     letter = T.letter_up(name[0], (T.shorthand_degree(sh) - 1) * (1 if up else -1))
@@ -323,6 +325,8 @@ def check_from_progression(ctx, case):
         ctx.note_case(False, ["from_progression:empty"])
         return
     exp = _voicing(ctx, nc, ch[0], "%s in %s" % (numeral, key))
+    alias = ctx.ok("from_progression", NoteContainer().from_progression, numeral, key)
+    ctx.check(failed(alias) or alias == nc, "constructor/from_progression-alias", repr(case))
     ctx.note_case(len(exp) >= 4 or any(o > 4 for (_, o) in exp), ["from_progression:%d-notes" % len(exp)])
 
 
